@@ -402,6 +402,10 @@ def run(rep, tier):
     hs = run_conversions(rep, tier)
     run_stacks(rep, tier)
     run_rvalue(rep, tier)
+    # C05.d hands coverage of the box to nd_map: its rules (C19) are evaluated here as well
+    from . import c19
+    c19.declare(rep)
+    c19.run(rep, "quick")
     cuda_scan(rep)
     return hs
 
